@@ -17,8 +17,8 @@ use crate::{
     },
     utils::{
         calc_remain_margin_with_funding_payment, check_base_asset_holding_cap, clear_position,
-        get_position, realize_bad_debt, require_additional_margin, side_to_direction,
-        update_open_interest_notional,
+        get_position, realize_bad_debt, require_additional_margin, require_bad_debt,
+        side_to_direction, update_open_interest_notional,
     },
 };
 
@@ -129,9 +129,13 @@ pub fn update_position_reply(
     let RemainMarginResponse {
         funding_payment: _,
         margin,
-        bad_debt: _,
+        bad_debt,
         latest_premium_fraction,
     } = calc_remain_margin_with_funding_payment(deps.as_ref(), position.clone(), margin_delta)?;
+
+    // the margin cannot go below zero: what the position owes beyond it (funding, a realised
+    // loss) would be forgiven here while its funding checkpoint moves on
+    require_bad_debt(bad_debt)?;
 
     // set the new position
     position.direction = new_direction;
